@@ -163,6 +163,17 @@ Definition embed_dep (hw : list hfile) (c : cmd) (sel : list string) : bool :=
   | _ => false
   end.
 
+(* the part of that class that matters along a same-command history: an embedded selected struct that is processed
+   AFTER the struct embedding it (K_embed_order) ... *)
+Fixpoint index_of (T : string) (l : list string) : nat :=
+  match l with [] => 0 | x :: r => if x =? T then 0 else S (index_of T r) end.
+Definition embed_after (hw : list hfile) (c : cmd) (sel : list string) : bool :=
+  match c_sub c with
+  | CNew => c_getset c &&
+            existsb (fun T => existsb (fun e => smem e sel && Nat.ltb (index_of T sel) (index_of e sel)) (struct_embeds hw T)) sel
+  | _ => false
+  end.
+
 (* input class of K_merge_stray_comment: some source ends a declaration with a comment and continues with a
    declaration that has no doc comment (the rest template: ShootRest() { /*noop*/ } followed by func init()) *)
 Definition stray_class (c : cmd) : bool := match c_sub c with CRest => true | _ => false end.
@@ -344,7 +355,10 @@ Fixpoint Pb_points (c : cmd) (p : pkg) (pts : list hpoint) : bool :=
                                 | _, _ => false
                                 end) (x_written x)
           end &&
-          (embed_dep (p_hw p') c (selection p' c) ||
+          (* ... or, all-in-one output only, an edit over the stale all-in-one file (K_aio_overlay_stale) *)
+          (embed_after (p_hw p') c (selection p' c) ||
+           (negb (separate c) && embed_dep (p_hw p') c (selection p' c) &&
+            match hp_edit pt with Some _ => negb (hp_delete pt) | None => false end) ||
            (Bool.eqb (x_ok x) (x_ok (hp_ref pt)) && str_list_eqb (x_written x) (x_written (hp_ref pt)) &&
             forallb (fun n => match lookup3 n (x_files x), lookup3 n (x_files (hp_ref pt)) with
                               | Some a, Some b => N.eqb (n3_bytes a) (n3_bytes b)
